@@ -189,12 +189,11 @@ impl<I: Index> TermIndex for SimpleTermIndex<I> {
 #[cfg(sophia_verif)]
 impl<I: Index> SimpleTermIndex<I> {
     /// Verification hook: for each index `i`,
-    /// does `i2t[i]` borrow its string data from the very key that `t2i` maps to `i`?
+    /// does `i2t[i]` hold the term of the key that `t2i` maps to `i`
     pub fn verif_audit(&self) -> Vec<bool> {
-        // a string of i2t[i] is fine if i2t[i] owns it (quoted triples are deep copies)
-        // or if it is borrowed from the corresponding string of the key
+        // (an owned copy with the same text, or a borrow of that very key)?
         fn same(owned: bool, x: &str, y: &str) -> bool {
-            owned || (std::ptr::eq(x.as_ptr(), y.as_ptr()) && x.len() == y.len())
+            (owned && x == y) || (std::ptr::eq(x.as_ptr(), y.as_ptr()) && x.len() == y.len())
         }
         fn same_storage(a: &SimpleTerm<'_>, b: &SimpleTerm<'_>) -> bool {
             use SimpleTerm::*;
